@@ -102,6 +102,8 @@ func ghostSort(e *Engine, ty string) (string, types.Type) {
 		return SStr, types.Typ[types.String]
 	case "iface":
 		return SIface, nil
+	case "[]*Error":
+		return SSlice, nil
 	case "[]byte":
 		return SSlice, types.NewSlice(types.Typ[types.Byte])
 	case "[]string":
@@ -543,6 +545,14 @@ func (ce *cenv) call(x *CExpr) cval {
 	case "lower":
 		a := ev(0)
 		return cval{t: sx("lower", a.t), typ: types.Typ[types.String]}
+	case "errtext":
+		// the text of an error value (what its Error method returns)
+		a := ev(0)
+		t := a.t
+		if a.sort == "nil" {
+			t = "nil_iface"
+		}
+		return cval{t: sx("errtext", t), typ: types.Typ[types.String]}
 	case "shared":
 		a := ev(0)
 		return cval{t: sx("shared", ce.refOf(a)), typ: boolT}
